@@ -120,6 +120,9 @@ def main():
         info = CHECKS.get(pid)
         if info and info[0]:
             _, technique, text, note, ref = info
+            if pid not in ("C14", "C09"):
+                technique += "; thorough tier adds coverage-guided fuzzing (libFuzzer) over the generator's choice tape with the same oracle in the target"
+                text += " The thorough tier additionally runs a libFuzzer campaign (8 processes) whose input bytes are the choice tape of the same generator and whose target carries the same oracle; artifacts are re-judged by the strict replay path."
             checks.append({
                 "property_id": pid,
                 "quick_cmd": f"./vcheck {pid} quick",
@@ -146,6 +149,8 @@ def main():
         "engines": [
             {"name": "vcheck", "path": "/verif/harness", "serves_properties": [c["property_id"] for c in checks],
              "kind_free_text": "Rust binary: proptest-driven choice-tape generators (16 shards, seeded, shrinking), reference models / metamorphic relations as oracles, bounded-exhaustive sub-spaces, supervised child for crash/hang, replay + known-findings handling"},
+            {"name": "vcheck-fuzz", "path": "/verif/fuzz", "serves_properties": [c["property_id"] for c in checks],
+             "kind_free_text": "cargo-fuzz / libFuzzer targets (thorough tier, started by ./vcheck): parse_total (C14, bytes = text), exec_total (C09) and tape_prop (all other properties: bytes = choice tape of the property's generator, VCHECK_FUZZ_PROP selects it); the property's oracle runs inside the target, artifacts are converted to replay files and re-judged"},
         ],
         "checks": checks,
         "notes": "Every check: exit 0 = held on everything explored; exit 1 + `VIOLATION property=<id> replay=<path>`; exit 2 = build problem / inconclusive (never a verdict). VERIF_SEED selects the PRNG seed. Known findings: /verif/known_findings.json.",
